@@ -276,7 +276,7 @@ CHECKS = {
              "behaviours to the first 4 (quick) / 6 (thorough) serviced frames for windows 1..3, and long random fault runs with "
              "cancellations; TLC validates each run against Trace_AshLink (host steps vs AshHost, NCP steps vs AshNcp, FIFO line "
              "consistency) with the delivery invariants evaluated on every state."
-             " The line may also stall the copy of a duplicated frame on its own (hold / release: the copy arrives after up to HoldSpan later frames of its direction) - in the model (two configurations), the simulated behaviours, the fault policies and the random runs.",
+             " The line may also stall the copy of a duplicated frame on its own (hold / release: the copy arrives after up to HoldSpan later frames of its direction) - in the model (two configurations), the simulated behaviours, the fault policies and the random runs. The host's serial transport may raise out of a DATA write (HArm): the send ends with that error, a retransmission's frame number stays spent (its first copy may have been accepted); whether a first transmission's number is given back is a per-host policy and AshLink is checked for both.",
         design_ref="3/C01",
         note="Trusted: simulated NCP (transcription of AshNcp.tla, each of its steps validated against that spec in the same traces), "
              "FIFO line with detectable corruption (real bit flips; the host's own CRC rejects them), virtual-time loop, ashref.py.",
